@@ -55,6 +55,10 @@ def _child_pristine(ops):
     return _ctx["mod"].pristine_eval(_ctx["S"], ops)
 
 
+def _dg(x):
+    return x[0] if isinstance(x, tuple) else x
+
+
 def evaluate(run_seed, ops=None, pristine="budget", want_ops=False, extra_opts=None):
     """Execute one run (generated from run_seed, or the given op list) in a fresh fork, then its
     pristine obligations each in another fresh fork.  Returns the run result with violations."""
@@ -70,11 +74,13 @@ def evaluate(run_seed, ops=None, pristine="budget", want_ops=False, extra_opts=N
     for ob in res["obligations"]:
         got = in_fork(_child_pristine, ob["ops"], timeout=60)
         npr += 1
-        if got != ob["expect"]:
+        eq = getattr(_ctx["mod"], "pristine_equal", None)
+        same = eq(got, ob["expect"]) if eq else got == ob["expect"]
+        if not same:
             res["violations"].append({"cls": ob.get("cls", "pristine_differs"), "site": ob["site"],
                                       "step": ob["step"],
-                                      "detail": {"variant": ob.get("variant"), "aged": ob["expect"],
-                                                 "pristine": got}})
+                                      "detail": {"variant": ob.get("variant"), "aged": _dg(ob["expect"]),
+                                                 "pristine": _dg(got)}})
     res["pristine_evals"] = npr
     return res
 
